@@ -7,3 +7,6 @@ import Props.C19
 #print axioms Webauthn.Props.C19.parsers_cbor
 #print axioms Webauthn.Props.C19.semantic_auth
 #print axioms Webauthn.Props.C19.never_returns_unverified
+#print axioms Webauthn.Props.C19.semantic_reg
+#print axioms Webauthn.Props.C19.fmt_none_in_hierarchy
+#print axioms Webauthn.Props.C19.fmt_unknown_in_hierarchy
